@@ -33,8 +33,9 @@ func init() {
 		Rule: "base sessions (TLS 1.0/1.2/1.3 x suites x with/without client certificate in the ticket) from a zcrypto server with explicit ticket keys; per session every single-byte flip and every truncation of the ticket (exhaustive), extensions, zero ticket, foreign key name, foreign ticket, MAC recomputed under a foreign key (also with the foreign key installed), spliced IV/ciphertext/MAC of two tickets, cross-version tickets, " +
 			"each presented through the client's session cache (hook) and, for TLS<=1.2, through ClientFingerprintConfiguration; SetSessionTicketKeys rotation histories, legacy SessionTicketKey, automatic rotation and the 7-day lifetime driven by Config.Time, tickets disabled, suite dropped by the server. " +
 			"non-trivial = a presentation whose ticket bytes were seen in the tapped ClientHello and whose handshake outcome was decided; distinct by (session, route, mutation) or (history, epoch, ticket)",
-		MinNontrivial: 3400,
-		Shards:        16,
+		MinNontrivial:         3400,
+		MinNontrivialThorough: 40000,
+		Shards:                16,
 		Assumptions: []string{
 			"ticket layout (key name 16 | IV 16 | ciphertext | HMAC-SHA256 32, key material = SHA-512 of the 32-byte key) is used only to build hostile tickets, never by the oracle",
 			"the oracle's model of the server's current keys is the SetSessionTicketKeys history; the hook's key-name snapshot is compared with the ticket's key name as a cross-check",
